@@ -221,6 +221,14 @@ CLAIMS["C01"]["text"] += " Variant payload representation agrees between constru
 for _c in ("C04", "C20", "C12", "C03"):
     CLAIMS[_c]["text"] += " Pattern traversals of the front end and generator descend into every sub-pattern position (PAT-VISIT)."
 CLAIMS["C16"]["text"] += " Constant folds of float operations are declined, by value and not by spelling, wherever the VM arm stops with an error (FOLD)."
+CLAIMS["C27"]["text"] += " Collision chains are walked with an unconditional advance as the last statement of every iteration, a trailing pointer set to the cursor immediately before it, a hit only under hash-and-key equality, and reuse/create of a slot writing the same per-entry arrays (CHAIN-WALK)."
+CLAIMS["C27"]["note"] = "The dictionary model as a whole (resize, free-list reuse order) is not decided."
+CLAIMS["C20"]["text"] += " The scope walk deciding 'captured' never forgets a lambda/task boundary it crossed: a boundary scope asks the whole enclosing chain, or an accumulated flag is passed on joined with `||` (CAPTURE-WALK)."
+CLAIMS["C23"]["text"] += " No instruction of the `?`/`!` lowerings (nor of any other lowering) is emitted behind an unconditional transfer without a label, so the placeholder pop of a void payload is on the success path (EMIT-DEAD)."
+CLAIMS["C23"]["note"] = "Stack depth at the `?` site for every expression shape is not decided beyond that."
+for _c in ("C01", "C02"):
+    CLAIMS[_c]["text"] += " No emitted instruction is unreachable behind an unconditional transfer (EMIT-DEAD)."
+CLAIMS["C32"]["text"] += " Each location table records its entries depending on nothing but its own last entry (LOC-DISCIPLINE)."
 NOT_APPLICABLE["C33"] = "unit inference (char index vs byte offset vs token index) over lexer/parser/diagnostics needs the type-resolved MIR engine with per-field def-use; that engine was not completed in the time available, and no sound syntactic proxy was found (a name-based one would alarm on behaviour-preserving edits)"
 
 for _p in []:
